@@ -287,7 +287,7 @@ fn enum_seqs(alpha: &[u8], maxlen: usize, minlen: usize) -> Vec<Vec<u8>> {
 
 pub fn gen(tier: &str, rng: &mut Rng, out: &mut Vec<String>) {
     let thorough = tier == "thorough";
-    let (nidx, npat) = if thorough { (5_000, 20) } else { (1_200, 10) };
+    let (nidx, npat) = if thorough { (5_000, 20) } else { (2_400, 10) };
     for i in 0..nidx {
         let alpha = alphabet(rng);
         let seqs = sequences(rng, alpha, i % 6 == 5);
